@@ -159,6 +159,7 @@ def _wrap(cls, name, recorder):
         if outer:
           _emit_life(self, name, args, before, _snapshot(self), exc, out)
         if recorder is not None and exc == '' and getattr(_state, 'c', 0) == 0:
+          _state.kwargs = kwargs
           recorder(self, name, args, out)
       except Exception:
         pass          # recording must never disturb a test
@@ -226,7 +227,91 @@ def _rec_matrix(self, name, args, out):
   _emit({'ev': 'CallMatrix', 'method': name, 'cls': type(self).__name__, 'L': _arr(L), 'M': _arr(M)})
 
 
+def _rec_calibrate(self, name, args, out):
+  """calibrate_threshold(pairs_valid, y_valid, strategy, min_rate, beta): the validation distances are read back
+  with pair_distance (recording suspended), the stored threshold_ afterwards"""
+  if not type(self).__module__.startswith('metric_learn'):
+    return
+  kw = dict(getattr(_state, 'kwargs', {}) or {})
+  names = ['pairs_valid', 'y_valid', 'strategy', 'min_rate', 'beta']
+  for n, a in zip(names, args):
+    kw[n] = a
+  strategy = kw.get('strategy', 'accuracy')
+  y = np.asarray(kw['y_valid'])
+  if y.ndim != 1 or len(y) == 0 or len(y) > 400 or not set(np.unique(y).tolist()) <= {-1, 1}:
+    return
+  _state.c = getattr(_state, 'c', 0) + 1          # (suspends the call recorders)
+  _state.d = _depth() + 1                         # (and the life-cycle events)
+  try:
+    d = np.asarray(self.pair_distance(kw['pairs_valid']), dtype=float)
+  finally:
+    _state.c -= 1
+    _state.d -= 1
+  beta = kw.get('beta', 1.)
+  mr = kw.get('min_rate', None)
+  _emit({'ev': 'CallCalibrate', 'method': name, 'cls': type(self).__name__, 'strategy': str(strategy),
+         'beta': float(beta) if beta is not None else 1.0, 'min_rate': float(mr) if mr is not None else 0.0,
+         'y': [int(v) for v in y], 'd': d.tolist(), 'thr': float(self.threshold_)})
+
+
+def _wrap_constraints():
+  """Constraints.positive_negative_pairs / chunks as used by the tests and by every *_Supervised fit"""
+  from metric_learn.constraints import Constraints
+
+  def wrap(name, rec):
+    orig = Constraints.__dict__[name]
+
+    def wrapper(self, *args, **kwargs):
+      exc, out = '', None
+      try:
+        out = orig(self, *args, **kwargs)
+        return out
+      except BaseException as e:
+        exc = type(e).__name__
+        raise
+      finally:
+        try:
+          rec(self, args, kwargs, out, exc)
+        except Exception:
+          pass
+    wrapper.__name__ = name
+    wrapper.__doc__ = orig.__doc__
+    setattr(Constraints, name, wrapper)
+
+  def rec_pairs(self, args, kwargs, out, exc):
+    kw = dict(kwargs)
+    for n, a in zip(['n_constraints', 'same_length', 'random_state', 'num_constraints'], args):
+      kw[n] = a
+    n = kw.get('n_constraints')
+    if kw.get('num_constraints', 'deprecated') != 'deprecated' or not isinstance(n, (int, np.integer)) or exc:
+      return
+    y = np.asarray(self.partial_labels)
+    if y.ndim != 1 or len(y) > 400 or n > 400 or y.dtype.kind not in 'iu':
+      return
+    a, b, c, d = (np.asarray(v) for v in out)
+    _emit({'ev': 'CallConsPairs', 'method': 'positive_negative_pairs', 'cls': 'Constraints', 'y': [int(v) for v in y],
+           'n': int(n), 'same_length': bool(kw.get('same_length', False)),
+           'A': [int(v) + 1 for v in a], 'B': [int(v) + 1 for v in b], 'C': [int(v) + 1 for v in c], 'D': [int(v) + 1 for v in d]})
+
+  def rec_chunks(self, args, kwargs, out, exc):
+    kw = dict(kwargs)
+    for n, a in zip(['n_chunks', 'chunk_size', 'random_state', 'num_chunks'], args):
+      kw[n] = a
+    if kw.get('num_chunks', 'deprecated') != 'deprecated':
+      return
+    n, size = kw.get('n_chunks', 100), kw.get('chunk_size', 2)
+    y = np.asarray(self.partial_labels)
+    if y.ndim != 1 or len(y) > 400 or y.dtype.kind not in 'iu' or not isinstance(n, (int, np.integer)) \
+       or not isinstance(size, (int, np.integer)) or n < 1 or size < 1:
+      return
+    _emit({'ev': 'CallConsChunks', 'method': 'chunks', 'cls': 'Constraints', 'y': [int(v) for v in y], 'n': int(n),
+           'size': int(size), 'exc': exc, 'ch': [int(v) for v in np.asarray(out)] if out is not None else []})
+  wrap('positive_negative_pairs', rec_pairs)
+  wrap('chunks', rec_chunks)
+
+
 def _install():
+  _wrap_constraints()
   import metric_learn
   from metric_learn import base_metric as bm
   for m in ('pair_distance', 'pair_score', 'score_pairs'):
@@ -236,8 +321,9 @@ def _install():
   _wrap(bm.MahalanobisMixin, 'get_metric', None)
   _wrap(bm._PairsClassifierMixin, 'decision_function', _rec_pairs)
   _wrap(bm._PairsClassifierMixin, 'predict', _rec_pairs)
-  for m in ('score', 'set_threshold', 'calibrate_threshold'):
+  for m in ('score', 'set_threshold'):
     _wrap(bm._PairsClassifierMixin, m, None)
+  _wrap(bm._PairsClassifierMixin, 'calibrate_threshold', _rec_calibrate)
   for c in (bm._TripletsClassifierMixin, bm._QuadrupletsClassifierMixin):
     _wrap(c, 'decision_function', _rec_tuples)
     _wrap(c, 'predict', _rec_tuples)
